@@ -236,6 +236,320 @@ func paramSourcesD(v ssa.Value, seen map[ssa.Value]bool, out map[string]bool, de
 	}
 }
 
+// sameLocalCellRead: a (read for the instruction `from`) and b (read for the instruction `to`, which `from`
+// dominates) are two reads of the same variable of the function — the same field of the same local struct — and
+// the variable cannot have been written between the execution of `from` whose result is in use and `to`: the struct
+// is only used through its fields, as a whole-value read, and as the receiver or argument of calls; no store into
+// the field (or the whole struct) and no call that is given the struct's address lies on a way from `from` to `to`.
+func sameLocalCellRead(a, b ssa.Value, from, to ssa.Instruction) bool {
+	la, okA := a.(*ssa.UnOp)
+	lb, okB := b.(*ssa.UnOp)
+	if !okA || !okB || la.Op != token.MUL || lb.Op != token.MUL {
+		return false
+	}
+	fa, okA := la.X.(*ssa.FieldAddr)
+	fb, okB := lb.X.(*ssa.FieldAddr)
+	if !okA || !okB || fa.Field != fb.Field || fa.X != fb.X {
+		return false
+	}
+	al, isAl := fa.X.(*ssa.Alloc)
+	if !isAl || al.Parent() != from.Parent() || from.Parent() != to.Parent() || !flow.InstrDominates(from, to) {
+		return false
+	}
+	// the instructions that may write the field
+	var writers []ssa.Instruction
+	for _, ref := range ssau.Referrers(al) {
+		switch y := ref.(type) {
+		case *ssa.DebugRef:
+		case *ssa.FieldAddr:
+			for _, r2 := range ssau.Referrers(y) {
+				switch z := r2.(type) {
+				case *ssa.DebugRef:
+				case *ssa.UnOp:
+					if z.Op != token.MUL {
+						return false
+					}
+				case *ssa.Store:
+					if z.Addr != ssa.Value(y) || z.Val == ssa.Value(y) {
+						return false
+					}
+					if y.Field == fa.Field {
+						writers = append(writers, z)
+					}
+				default:
+					return false // the field's address is handed out
+				}
+			}
+		case *ssa.UnOp:
+			if y.Op != token.MUL {
+				return false
+			}
+		case *ssa.Store:
+			if y.Val == ssa.Value(al) || y.Addr != ssa.Value(al) {
+				return false
+			}
+			writers = append(writers, y)
+		case ssa.CallInstruction:
+			if _, isCall := y.(*ssa.Call); !isCall {
+				return false // go / defer: runs at an unknown time
+			}
+			writers = append(writers, y)
+		default:
+			return false // the address is kept somewhere (closure, struct, phi, ...)
+		}
+	}
+	return noWriterBetween(writers, la, lb, from, to)
+}
+
+// noWriterBetween: la (read for `from`) and lb (read for `to`, which `from` dominates) are two loads of one memory
+// cell; none of the instructions that may write the cell can run after the earlier of la and `from` and before
+// `to` without that earlier instruction running again in between.
+func noWriterBetween(writers []ssa.Instruction, la, lb *ssa.UnOp, from, to ssa.Instruction) bool {
+	start := ssa.Instruction(la)
+	if !flow.InstrDominates(la, from) {
+		if !flow.InstrDominates(from, la) {
+			return false
+		}
+		start = from
+	}
+	if !flow.InstrDominates(start, lb) || !(ssa.Instruction(lb) == to || flow.InstrDominates(lb, to)) {
+		return false
+	}
+	sb, tb := start.Block(), to.Block()
+	avoid := map[*ssa.BasicBlock]bool{sb: true}
+	after := flow.ReachableFrom(sb, avoid)
+	for _, w := range writers {
+		wb := w.Block()
+		switch {
+		case wb == sb && flow.Index(w) > flow.Index(start):
+			if tb == sb {
+				if flow.Index(w) < flow.Index(to) {
+					return false
+				}
+				continue // after to: the way back to `to` passes start
+			}
+		case wb != sb && after[wb]:
+			if tb == sb {
+				continue // the way to `to` passes start
+			}
+			if wb == tb && flow.Index(w) < flow.Index(to) {
+				return false
+			}
+		default:
+			continue // does not run after start
+		}
+		// leaving the writer's block, `to` is reached without passing the block of start
+		for _, s := range wb.Succs {
+			if s != sb && flow.Reachable(s, tb, avoid) {
+				return false
+			}
+		}
+	}
+	return true
+}
+
+// sameRecordFieldRead: a (read for `from`) and b (read for `to`) are two reads of the same field through the same
+// pointer value (`st.fxs` twice, st a parameter), and between them the function neither stores into that field of
+// any record of the type, nor overwrites such a record as a whole, nor calls anything but builtins (a callee might
+// write the field).
+func sameRecordFieldRead(a, b ssa.Value, from, to ssa.Instruction) bool {
+	if a == b {
+		return true
+	}
+	la, okA := a.(*ssa.UnOp)
+	lb, okB := b.(*ssa.UnOp)
+	if !okA || !okB || la.Op != token.MUL || lb.Op != token.MUL {
+		return false
+	}
+	fa, okA := la.X.(*ssa.FieldAddr)
+	fb, okB := lb.X.(*ssa.FieldAddr)
+	if !okA || !okB || fa.Field != fb.Field || fa.X != fb.X {
+		return false
+	}
+	fn := from.Parent()
+	if to.Parent() != fn || la.Parent() != fn || lb.Parent() != fn || !flow.InstrDominates(from, to) {
+		return false
+	}
+	var writers []ssa.Instruction
+	ssau.Instrs(fn, func(in ssa.Instruction) {
+		switch y := in.(type) {
+		case *ssa.Store:
+			if f2, isFA := y.Addr.(*ssa.FieldAddr); isFA {
+				if f2.Field == fa.Field && types.Identical(f2.X.Type(), fa.X.Type()) {
+					writers = append(writers, y)
+				}
+				return
+			}
+			if types.Identical(y.Addr.Type(), fa.X.Type()) || types.Identical(y.Addr.Type(), fa.Type()) {
+				writers = append(writers, y) // the whole record, or through a pointer to a field of this type
+			}
+		case ssa.CallInstruction:
+			if _, isB := y.Common().Value.(*ssa.Builtin); !isB {
+				writers = append(writers, y)
+			}
+		}
+	})
+	return noWriterBetween(writers, la, lb, from, to)
+}
+
+// recordFieldValues: the values field #f of the records of type pt (a pointer to a struct) can hold, found by type:
+// every store into that field anywhere in the repository, plus the zero value unless every place that makes such a
+// record stores into the field before the record is used for anything but its fields.  ok is false when the field's
+// contents cannot be listed this way: the address of the field is handed out, a record of the type is written as a
+// whole, or a record lives in something other than a local allocation (a global, an element of a slice or map, a
+// field of another struct).
+func (c *Ctx) recordFieldValues(pt types.Type, f int) (vals []ssa.Value, zero bool, ok bool) {
+	ptr, isPtr := pt.Underlying().(*types.Pointer)
+	if !isPtr {
+		return nil, false, false
+	}
+	stT, isSt := ptr.Elem().Underlying().(*types.Struct)
+	if !isSt || f >= stT.NumFields() {
+		return nil, false, false
+	}
+	ok = true
+	for _, fn := range c.P.AllFuncs {
+		if fn.Blocks == nil {
+			continue
+		}
+		ssau.Instrs(fn, func(in ssa.Instruction) {
+			for _, op := range in.Operands(nil) {
+				if g, isG := (*op).(*ssa.Global); isG && types.Identical(g.Type(), pt) {
+					zero = true // a package-level record starts out zero
+				}
+			}
+			switch y := in.(type) {
+			case *ssa.FieldAddr:
+				if y.Field != f || !types.Identical(y.X.Type(), pt) {
+					return
+				}
+				for _, r := range ssau.Referrers(y) {
+					switch z := r.(type) {
+					case *ssa.DebugRef:
+					case *ssa.UnOp:
+						if z.Op != token.MUL {
+							ok = false
+						}
+					case *ssa.Store:
+						if z.Addr != ssa.Value(y) || z.Val == ssa.Value(y) {
+							ok = false
+							return
+						}
+						vals = append(vals, z.Val)
+					default:
+						ok = false
+					}
+				}
+			case *ssa.Store:
+				if types.Identical(y.Addr.Type(), pt) {
+					ok = false // a record overwritten as a whole
+				}
+			case *ssa.Alloc:
+				if !types.Identical(y.Type(), pt) {
+					return
+				}
+				// the field is set before the record is used as a whole
+				var sets []ssa.Instruction
+				for _, r := range ssau.Referrers(y) {
+					if fa, isFA := r.(*ssa.FieldAddr); isFA && fa.Field == f {
+						for _, r2 := range ssau.Referrers(fa) {
+							if st, isStore := r2.(*ssa.Store); isStore && st.Addr == ssa.Value(fa) {
+								sets = append(sets, st)
+							}
+						}
+					}
+				}
+				for _, r := range ssau.Referrers(y) {
+					var use ssa.Instruction
+					switch z := r.(type) {
+					case *ssa.DebugRef:
+						continue
+					case *ssa.FieldAddr:
+						if z.Field != f {
+							continue
+						}
+						for _, r2 := range ssau.Referrers(z) {
+							if ld, isLd := r2.(*ssa.UnOp); isLd {
+								use = ld
+							}
+						}
+						if use == nil {
+							continue
+						}
+					default:
+						use = r
+					}
+					covered := false
+					for _, st := range sets {
+						if st != use && flow.InstrDominates(st, use) {
+							covered = true
+						}
+					}
+					if !covered {
+						zero = true
+					}
+				}
+			default:
+				// a record of the type that is not a local allocation: a value of the struct type made or held elsewhere
+				if _, isRange := in.(*ssa.Range); isRange {
+					return // (its type is not a Go type)
+				}
+				if v, isV := in.(ssa.Value); isV {
+					if types.Identical(v.Type(), ptr.Elem()) {
+						if ld, isLd := v.(*ssa.UnOp); !isLd || ld.Op != token.MUL {
+							ok = false
+						}
+					}
+					if types.Identical(v.Type(), pt) {
+						switch v.(type) {
+						case *ssa.Call, *ssa.Phi, *ssa.Extract, *ssa.UnOp:
+							// handed on / read from a variable: the records themselves are allocations seen elsewhere
+						default:
+							ok = false
+						}
+					}
+				}
+			}
+		})
+		if !ok {
+			return nil, false, false
+		}
+	}
+	return vals, zero, ok
+}
+
+// deepDefsRecordFields is deepDefs that also looks through reads of a field of a record held by pointer
+// (`st.n` where st came from a constructor helper): such a read resolves to what recordFieldValues lists.
+func (c *Ctx) deepDefsRecordFields(v ssa.Value, scope []*ssa.Function) []ssa.Value {
+	var out []ssa.Value
+	seen := map[ssa.Value]bool{}
+	var rec func(v ssa.Value, depth int)
+	rec = func(v ssa.Value, depth int) {
+		for _, d := range deepDefs(v, scope) {
+			if seen[d] {
+				continue
+			}
+			seen[d] = true
+			if ld, isLd := d.(*ssa.UnOp); isLd && ld.Op == token.MUL && depth < 4 {
+				if fa, isFA := ld.X.(*ssa.FieldAddr); isFA {
+					if vals, zero, ok := c.recordFieldValues(fa.X.Type(), fa.Field); ok && len(vals) > 0 {
+						for _, x := range vals {
+							rec(x, depth+1)
+						}
+						if zero {
+							out = append(out, zeroConst(d.Type()))
+						}
+						continue
+					}
+				}
+			}
+			out = append(out, d)
+		}
+	}
+	rec(v, 0)
+	return out
+}
+
 func keysOf(m map[string]bool) string {
 	var ks []string
 	for k := range m {
@@ -302,7 +616,7 @@ func C01(c *Ctx) {
 					continue
 				}
 				lk, isLk := ex.Tuple.(*ssa.Lookup)
-				if isLk && lk.CommaOk && lk.X == mu.Map && lk.Index == mu.Key {
+				if isLk && lk.CommaOk && lk.X == mu.Map && (lk.Index == mu.Key || sameLocalCellRead(lk.Index, mu.Key, lk, mu)) {
 					absent = true
 				}
 			}
@@ -417,7 +731,7 @@ func C01(c *Ctx) {
 				return
 			}
 			isSet := true
-			for _, d := range deepDefs(lk.X, m.fns) {
+			for _, d := range c.deepDefsRecordFields(lk.X, m.fns) {
 				if _, isMake := d.(*ssa.MakeMap); !isMake {
 					isSet = false
 				}
@@ -444,7 +758,7 @@ func C01(c *Ctx) {
 				for i := 0; i < 4 && cur != nil; i++ {
 					for _, in2 := range cur.Instrs {
 						if ci, isC := in2.(ssa.CallInstruction); isC {
-							if b, isB := ci.Common().Value.(*ssa.Builtin); isB && b.Name() == "delete" && ci.Common().Args[0] == lk.X && ci.Common().Args[1] == lk.Index {
+							if b, isB := ci.Common().Value.(*ssa.Builtin); isB && b.Name() == "delete" && sameRecordFieldRead(lk.X, ci.Common().Args[0], lk, in2) && ci.Common().Args[1] == lk.Index {
 								ok5 = true
 							}
 						}
@@ -1109,7 +1423,7 @@ func C02(c *Ctx) {
 					continue // i++
 				}
 				// the starting value, possibly handed in by the caller of a helper
-				for _, d := range deepDefs(e, m.fns) {
+				for _, d := range c.deepDefsRecordFields(e, m.fns) {
 					if bo, isB := d.(*ssa.BinOp); isB && bo.Op == token.ADD {
 						if p2, isP := bo.X.(*ssa.Phi); isP && p2 == phi {
 							continue
